@@ -59,6 +59,8 @@ Lemma tbl_starttls_proh : ft_starttls_proh = st_Secure.
 Proof. reflexivity. Qed.
 Lemma tbl_starttls_nec : ft_starttls_nec = 0%N.
 Proof. reflexivity. Qed.
+Lemma tbl_secure_minus_ready : N.ldiff st_Secure st_Ready = st_Secure.
+Proof. reflexivity. Qed.
 
 Section Bits.
   Variable b0 : N.
@@ -277,10 +279,12 @@ Section Config.
   Qed.
 
   Lemma expect_header_clear p m m' r :
-    clearp p = true -> clearinv p m -> expect_header m = (m', r) -> clearinv p m'.
+    clearp p = true -> clearinv p m -> expect_header c m = (m', r) -> clearinv p m'.
   Proof.
     intros Hp Hi. unfold expect_header. destruct (read RPHeader m) as [m1 x] eqn:E.
-    intro H; inversion H; subst. eapply read_clear; eauto.
+    pose proof (read_clear p _ _ _ _ Hp Hi E) as Hi1.
+    destruct (header_of x) as [h|]; [|intro H; inversion H; subst; exact Hi1].
+    destruct (header_ok c (assign h (m_info m1))); intro H; inversion H; subst; exact Hi1.
   Qed.
 
   Lemma send_header_clear m m' r :
@@ -291,9 +295,8 @@ Section Config.
     rewrite aut_emit, Ha. reflexivity.
   Qed.
 
-  (* what can be in the cache in clear text: only the real STARTTLS feature *)
-  Definition tls_entry (e : centry) : Prop :=
-    is_tls_kind (snd e) = true /\ f_neg (snd e) = true /\ eligible (snd e) b0 = true.
+  (* what is in the cache: configured features *)
+  Definition cache_cfg (ca : cache) : Prop := Forall (fun e => In (snd e) (c_feats c)) ca.
 
   Lemma cache_remove_forall (P : centry -> Prop) s ca : Forall P ca -> Forall P (cache_remove s ca).
   Proof.
@@ -301,29 +304,38 @@ Section Config.
     destruct (bytes_eqb (ckey e) s); [exact IH|constructor; assumption].
   Qed.
 
-  Lemma cache_step_clear f req ca :
-    In f (c_feats c) -> Forall tls_entry ca -> Forall tls_entry (cache_step b0 f req ca).
+  Lemma cache_step_cfg st f req ca : In f (c_feats c) -> cache_cfg ca -> cache_cfg (cache_step st f req ca).
   Proof.
-    intros Hin Hca. unfold cache_step. destruct (eligible f b0) eqn:E; [|exact Hca].
-    unfold cache_put. apply Forall_app. split; [apply cache_remove_forall; exact Hca|].
-    constructor; [|constructor]. unfold tls_entry; cbn [snd].
-    destruct (gated_cases f (cfg_gated f Hin)) as [(Hk & Hn & _)|(_ & Hnec & _)].
-    - auto.
-    - rewrite (b0_not_eligible b0 Hb0 f Hnec) in E. discriminate.
+    intros Hin Hca. unfold cache_step, cache_put, cache_cfg. apply Forall_app.
+    split; [apply cache_remove_forall; exact Hca|]. constructor; [exact Hin|constructor].
   Qed.
 
-  Lemma cache_step_nonempty st f req ca : ca <> [] -> cache_step st f req ca <> [].
+  (* in clear text only the real STARTTLS feature can be selected *)
+  Lemma clear_eligible_is_tls f :
+    In f (c_feats c) -> eligible f b0 = true -> is_tls_kind f = true /\ f_neg f = true.
   Proof.
-    unfold cache_step, cache_put. destruct (eligible f st); [|auto].
-    intros _ H. apply app_eq_nil in H. destruct H; discriminate.
+    intros Hin He. destruct (gated_cases f (cfg_gated f Hin)) as [(Hk & Hn & _)|(_ & Hnec & _)]; [auto|].
+    rewrite (b0_not_eligible b0 Hb0 f Hnec) in He. discriminate.
   Qed.
+
+  Lemma tls_feature_eligible f :
+    In f (c_feats c) -> f_space f = ns_StartTLS -> is_tls_kind f = true /\ f_neg f = true /\ eligible f b0 = true.
+  Proof.
+    intros Hin Hsp. destruct (gated_cases f (cfg_gated f Hin)) as [(Hk & Hn & Hp & Hnec & _)|(_ & _ & Hns)]; [|contradiction].
+    split; [exact Hk|]. split; [exact Hn|].
+    unfold eligible, has, disj. rewrite Hnec, Hp, tbl_starttls_nec, tbl_starttls_proh, N.land_0_r. cbn [N.eqb andb].
+    apply N.eqb_eq. exact (land_sub _ _ _ (b0_mask b0 Hb0) tbl_secure_sub).
+  Qed.
+
+  Lemma cache_step_nonempty st f req ca : cache_step st f req ca <> [].
+  Proof. unfold cache_step, cache_put. intro H. apply app_eq_nil in H. destruct H; discriminate. Qed.
 
   Lemma read_children_clear cs : forall m ca tot lr m' r,
-    clearinv P1 m -> Forall tls_entry ca -> (ca <> [] -> tot <> 0) ->
+    clearinv P1 m -> cache_cfg ca -> (ca <> [] -> tot <> 0) ->
     read_children (c_feats c) b0 cs m ca tot lr = (m', r) ->
     clearinv P1 m' /\
     match r with
-    | Good (ca', tot', _) => Forall tls_entry ca' /\ (ca' <> [] -> tot' <> 0)
+    | Good (ca', tot', _) => cache_cfg ca' /\ (ca' <> [] -> tot' <> 0)
     | _ => True
     end.
   Proof.
@@ -336,7 +348,7 @@ Section Config.
           destruct perr.
           -- inversion H; subst. auto.
           -- eapply IH; [exact Hi1| | |exact H].
-             ++ apply cache_step_clear; [eapply get_feature_in; exact Eg|exact Hca].
+             ++ apply cache_step_cfg; [eapply get_feature_in; exact Eg|exact Hca].
              ++ intros _. discriminate.
         * eapply IH; [exact (Hi : clearinv P1 (add_adv sp m))|exact Hca| |exact H]. intros _. discriminate.
       + inversion H; subst. auto.
@@ -380,9 +392,9 @@ Section Config.
     destruct (starttls_negotiate_clear _ _ _ Hi E) as [(Ho & (Ha & Ht & Hh) & Hb)|(Ho & (Ha & Ht & Hb))]; subst o;
       cbn [o_err o_restart o_mask orb]; intro H; inversion H; subst; clear H.
     - left. split.
-      + rewrite Bool.orb_true_r. rewrite lor_0_r_. reflexivity.
+      + reflexivity.
       + destruct Hi as (_ & _ & Hbm). split; [split|].
-        * cbn [m_tr set_negd set_bits]. rewrite aut_emit, Ha, Hbm. cbn. rewrite N.eqb_refl.
+        * cbn [m_tr set_negd set_bits set_ready]. rewrite aut_emit, Ha, Hbm. cbn. rewrite N.eqb_refl.
           unfold is_tls_kind. rewrite Hk'. reflexivity.
         * auto.
         * cbn. rewrite Hb. reflexivity.
@@ -425,10 +437,12 @@ Section Config.
   Lemma read_negd rp m m' r : read rp m = (m', r) -> m_negd m' = m_negd m.
   Proof. unfold read. destruct (m_in m); intro H; inversion H; subst; reflexivity. Qed.
 
-  Lemma expect_header_negd m m' r : expect_header m = (m', r) -> m_negd m' = m_negd m.
+  Lemma expect_header_negd m m' r : expect_header c m = (m', r) -> m_negd m' = m_negd m.
   Proof.
-    unfold expect_header. destruct (read RPHeader m) as [m1 x] eqn:E. intro H; inversion H; subst.
-    eapply read_negd; exact E.
+    unfold expect_header. destruct (read RPHeader m) as [m1 x] eqn:E.
+    pose proof (read_negd _ _ _ _ E) as H1.
+    destruct (header_of x) as [h|]; [|intro H; inversion H; subst; exact H1].
+    destruct (header_ok c (assign h (m_info m1))); intro H; inversion H; subst; exact H1.
   Qed.
 
   Lemma send_header_negd m m' r : send_header c m = (m', r) -> m_negd m' = m_negd m.
@@ -475,28 +489,50 @@ Section Config.
     - exists P2. auto.
   Qed.
 
-  Lemma all_candidates ca : Forall tls_entry ca -> filter (cand [] b0) ca = ca.
+  Lemma cache_get_key s ca e : cache_get s ca = Some e -> ckey e = s.
   Proof.
-    induction 1 as [|e ca (Hk & Hn & He) Hca IH]; cbn; [reflexivity|].
-    unfold cand at 1. cbn [mem negb andb]. rewrite Hn, He. cbn. rewrite IH. reflexivity.
+    induction ca as [|x ca IH]; cbn [cache_get]; [discriminate|].
+    destruct (bytes_eqb (ckey x) s) eqn:E; intro H; [inversion H; subst; apply bytes_eqb_eq; exact E|auto].
+  Qed.
+
+  Lemma candidate_clear m e :
+    m_bits m = b0 -> cache_cfg (m_cache m) -> In e (candidates m) -> is_tls_kind (snd e) = true.
+  Proof.
+    intros Hb Hca Hin. unfold candidates in Hin. apply filter_In in Hin. destruct Hin as (Hin & Hcand).
+    unfold cache_cfg in Hca. rewrite Forall_forall in Hca. pose proof (Hca _ Hin) as Hf.
+    unfold cand in Hcand. apply andb_prop in Hcand. destruct Hcand as (_ & Hel). rewrite Hb in Hel.
+    exact (proj1 (clear_eligible_is_tls _ Hf Hel)).
+  Qed.
+
+  Lemma advertised_candidate m e :
+    m_bits m = b0 -> m_negd m = [] -> cache_cfg (m_cache m) -> cache_get ns_StartTLS (m_cache m) = Some e ->
+    candidates m <> [].
+  Proof.
+    intros Hb Hn Hca Hg. pose proof (cache_get_in _ _ _ Hg) as Hin.
+    pose proof (cache_get_key _ _ _ Hg) as Hk.
+    unfold cache_cfg in Hca. rewrite Forall_forall in Hca.
+    destruct (tls_feature_eligible _ (Hca _ Hin) Hk) as (_ & Hneg & Hel).
+    assert (In e (candidates m)) as Hcd.
+    { unfold candidates. apply filter_In. split; [exact Hin|]. unfold cand. rewrite Hn, Hb, Hneg, Hel. reflexivity. }
+    intro He. rewrite He in Hcd. contradiction.
   Qed.
 
   Lemma init_loop_clear_none fuel m m' r :
-    clearinv P1 m -> m_negd m = [] -> Forall tls_entry (m_cache m) -> m_cache m <> [] ->
+    clearinv P1 m -> m_negd m = [] -> cache_cfg (m_cache m) ->
+    (exists e, cache_get ns_StartTLS (m_cache m) = Some e) ->
     init_loop (S fuel) c m None = (m', r) -> clear_post m' r.
   Proof.
-    intros Hi Hnegd Hca Hne. cbn [init_loop].
+    intros Hi Hnegd Hca (e0 & Hadv). cbn [init_loop].
     destruct (select m) as [m1 r1] eqn:Es.
     destruct (select_spec _ _ _ Es) as (Hsame & Hsel).
     pose proof (clearinv_same _ _ _ Hsame Hi) as Hi1.
-    assert (candidates m = m_cache m) as Hcands.
-    { unfold candidates. destruct Hi as (_ & _ & Hb). rewrite Hnegd, Hb. apply all_candidates. exact Hca. }
+    assert (m_bits m = b0) as Hb by (destruct Hi as (_ & _ & Hb); exact Hb).
     destruct r1 as [[[req f]|]|e|].
-    - rewrite Hcands in Hsel. rewrite Forall_forall in Hca. destruct (Hca _ Hsel) as (Hk & _). cbn [snd] in Hk.
+    - pose proof (candidate_clear _ _ Hb Hca Hsel) as Hk. cbn [snd] in Hk.
       destruct (after_pick c m1 req f) as [m2 r2] eqn:Ep.
       pose proof (pick_clear_post _ _ _ _ _ Hi1 Hk Ep) as Hpost.
       destruct r2 as [[x|]|e|]; try contradiction; intro H; inversion H; subst; exact Hpost.
-    - rewrite Hcands in Hsel. contradiction.
+    - exfalso. exact (advertised_candidate _ _ Hb Hnegd Hca Hadv Hsel).
     - intro H; inversion H; subst. exists P1. auto.
     - intro H; inversion H; subst. exists P1. auto.
   Qed.
@@ -516,29 +552,24 @@ Section Config.
   Qed.
 
   Lemma after_read_clear m m' r :
-    clearinv P1 m -> m_negd m = [] -> Forall tls_entry (m_cache m) -> (m_cache m <> [] -> m_total m <> 0) ->
+    clearinv P1 m -> m_negd m = [] -> cache_cfg (m_cache m) -> (m_cache m <> [] -> m_total m <> 0) ->
     after_read c m true = (m', r) -> clear_post m' r.
   Proof.
     intros Hi Hnegd Hca Htot. unfold after_read.
-    assert (has (m_bits m) st_Secure = false) as Hsec
-      by (destruct Hi as (_ & _ & Hb); rewrite Hb; apply b0_secure; exact Hb0).
+    assert (m_bits m = b0) as Hb by (destruct Hi as (_ & _ & Hb); exact Hb).
+    assert (has (m_bits m) st_Secure = false) as Hsec by (rewrite Hb; apply b0_secure; exact Hb0).
     rewrite Hsec. cbn [andb negb].
     destruct (cache_get ns_StartTLS (m_cache m)) as [e|] eqn:Eg; cbn [negb andb].
     - (* advertised: the selection loop finds it *)
       assert (m_cache m <> []) as Hne by (intro Hn; rewrite Hn in Eg; discriminate).
       unfold normal_path. destruct (m_total m) eqn:Et; [exfalso; exact (Htot Hne eq_refl)|].
-      destruct (m_cache m) as [|x ca] eqn:Ec; [contradiction|].
-      rewrite <- Ec in *. apply init_loop_clear_none; auto.
+      destruct (m_allowed m); [intro H; inversion H; subst; exists P1; auto|].
+      apply init_loop_clear_none; eauto.
     - (* not advertised: forced *)
       destruct cfg_has_tls as (f & Ef). rewrite Ef.
       destruct (find_space_in _ _ _ Ef) as (Hin & Hsp).
-      destruct (gated_cases f (cfg_gated f Hin)) as [(Hk & Hn & Hp & Hnec & _)|(_ & _ & Hns)]; [|contradiction].
-      assert (eligible f (m_bits m) = true) as Hel.
-      { destruct Hi as (_ & _ & Hb). rewrite Hb. unfold eligible, has, disj.
-        rewrite Hnec, Hp, tbl_starttls_nec, tbl_starttls_proh, N.land_0_r. cbn [N.eqb andb].
-        pose proof (b0_secure b0 Hb0) as Hs. unfold has in Hs. apply N.eqb_neq in Hs.
-        apply N.eqb_eq. pose proof (land_sub _ _ _ (b0_mask b0 Hb0) tbl_secure_sub) as Hz. exact Hz. }
-      rewrite Hn, Hel. apply init_loop_clear_forced; auto.
+      destruct (tls_feature_eligible f Hin Hsp) as (Hk & Hn & Hel).
+      rewrite Hb, Hn, Hel. apply init_loop_clear_forced; auto.
   Qed.
 
   Lemma negotiate_features_clear m m' r :
@@ -576,7 +607,7 @@ Section Config.
     destruct (send_header c m) as [ma ra] eqn:Es.
     destruct (send_header_clear _ _ _ Hi Es) as (Hia & Hra). subst ra.
     pose proof (send_header_negd _ _ _ Es) as Hna.
-    destruct (expect_header ma) as [m1 r1] eqn:Ee.
+    destruct (expect_header c ma) as [m1 r1] eqn:Ee.
     pose proof (expect_header_clear P1 _ _ _ eq_refl Hia Ee) as Hi1.
     pose proof (expect_header_negd _ _ _ Ee) as Hn1.
     destruct r1 as [u|e|].
@@ -609,10 +640,12 @@ Section Config.
     - apply ti_emit; [reflexivity|exact Hi].
   Qed.
 
-  Lemma expect_header_ti m m' r : ti m -> expect_header m = (m', r) -> ti m'.
+  Lemma expect_header_ti m m' r : ti m -> expect_header c m = (m', r) -> ti m'.
   Proof.
     intro Hi. unfold expect_header. destruct (read RPHeader m) as [m1 x] eqn:E.
-    intro H; inversion H; subst. eapply read_ti; eauto.
+    pose proof (read_ti _ _ _ _ Hi E) as Hi1.
+    destruct (header_of x) as [h|]; [|intro H; inversion H; subst; exact Hi1].
+    destruct (header_ok c (assign h (m_info m1))); intro H; inversion H; subst; exact Hi1.
   Qed.
 
   Lemma send_header_ti m m' r : ti m -> send_header c m = (m', r) -> ti m'.
@@ -620,8 +653,6 @@ Section Config.
     intros Hi. unfold send_header. destruct Hi as (Ha & Ht & Hh & Hs). rewrite Ht, Hh. cbn [andb].
     intro H; inversion H; subst. apply ti_emit; [reflexivity|]. unfold ti; auto.
   Qed.
-
-  Definition cache_cfg (ca : cache) : Prop := Forall (fun e => In (snd e) (c_feats c)) ca.
 
   Lemma read_children_ti st cs : forall m ca tot lr m' r,
     ti m -> cache_cfg ca -> read_children (c_feats c) st cs m ca tot lr = (m', r) ->
@@ -635,9 +666,7 @@ Section Config.
       assert (ti (emit (EParse f) (add_adv sp m))) as Hi1 by (apply ti_emit; [reflexivity|exact Hi0]).
       destruct perr; [inversion H; subst; auto|].
       eapply IH; [exact Hi1| |exact H].
-      unfold cache_step. destruct (eligible f st); [|exact Hca].
-      unfold cache_put, cache_cfg. apply Forall_app. split; [apply cache_remove_forall; exact Hca|].
-      constructor; [|constructor]. cbn [snd]. eapply get_feature_in; exact Eg.
+      apply cache_step_cfg; [eapply get_feature_in; exact Eg|exact Hca].
   Qed.
 
   Lemma after_pick_ti m req f m' r :
@@ -651,8 +680,9 @@ Section Config.
     assert (ti m1) as Hi1 by (apply ti_emit; [reflexivity|exact Hi]).
     destruct (o_err o).
     - intro H; inversion H; subst. split; [exact Hi1|reflexivity].
-    - assert (ti (set_bits (N.lor (m_bits m1) (o_mask o)) m1)) as Hi2.
-      { destruct Hi1 as (Ha & Ht & Hh & Hs). unfold ti. cbn [m_tr m_tls m_hs m_bits set_bits].
+    - assert (ti (set_ready (m_ready m1 || has (o_mask o) st_Ready)
+                              (set_bits (N.lor (m_bits m1) (N.ldiff (o_mask o) st_Ready)) m1))) as Hi2.
+      { destruct Hi1 as (Ha & Ht & Hh & Hs). unfold ti. cbn [m_tr m_tls m_hs m_bits set_bits set_ready].
         repeat split; auto. apply has_lor. exact Hs. }
       destruct (o_restart o || req); intro H; inversion H; subst; (split; [exact Hi2|reflexivity]).
   Qed.
@@ -690,8 +720,8 @@ Section Config.
     intros Hi Hca. unfold after_read. destruct Hi as (Ha & Ht & Hh & Hs). rewrite Hs.
     cbn [negb]. rewrite Bool.andb_false_r.
     unfold normal_path. destruct (m_total m); [intro H; inversion H; subst; unfold ti; auto|].
-    destruct (m_cache m) eqn:Ec; [intro H; inversion H; subst; unfold ti; auto|].
-    rewrite <- Ec in *. apply init_loop_ti; [unfold ti; auto|exact Hca].
+    destruct (m_allowed m); [intro H; inversion H; subst; unfold ti; auto|].
+    apply init_loop_ti; [unfold ti; auto|exact Hca].
   Qed.
 
   Lemma negotiate_features_ti m first m' r : ti m -> negotiate_features c m first = (m', r) -> ti m'.
@@ -710,7 +740,7 @@ Section Config.
     intro Hi. rewrite negotiator_body_unfold. unfold headers.
     assert (forall m1 r1, (if ns_restart ns
                            then match send_header c m with
-                                | (ma, Good _) => expect_header ma
+                                | (ma, Good _) => expect_header c ma
                                 | other => other
                                 end
                            else (m, Good tt)) = (m1, r1) -> ti m1) as Hh.
@@ -743,7 +773,7 @@ Section Config.
       assert (ti ma) as Hia.
       { unfold ma, ti. cbn [m_tls m_hs m_bits emit set_hs]. split; [|auto].
         rewrite !aut_emit. cbn [m_tr set_hs]. rewrite Ha. reflexivity. }
-      destruct (expect_header ma) as [m1 r1] eqn:Ee.
+      destruct (expect_header c ma) as [m1 r1] eqn:Ee.
       pose proof (expect_header_ti _ _ _ Hia Ee) as Hi1.
       destruct r1 as [u|e|]; try solve [intro H; inversion H; subst; left; auto].
       destruct (negotiate_features c m1 (ns_first ns)) as [m2 r2] eqn:En.
@@ -764,7 +794,7 @@ Section Config.
     match p with
     | P0 | P1 | P2 => m_bits m = b0 /\ m_tls m = false
     | P3 | P5 => has (m_bits m) st_Ready = false
-    | P4 => has (m_bits m) st_Secure = true /\ m_tls m = true
+    | P4 => has (m_bits m) st_Secure = true /\ m_tls m = true /\ m_hs m = false
     end.
 
   Definition final_ok (r : result) : Prop :=
@@ -785,12 +815,68 @@ Section Config.
   Lemma ti_stop m cl : ti m -> (cl = ROk -> c_hs_ok c = true) -> final_ok (mkR cl (m_bits m) m).
   Proof. intros (Ha & Ht & Hh & Hs) Hcl. exists P4. cbn. repeat split; auto. Qed.
 
-  Lemma ti_next m (mask : N) (restart : bool) :
-    ti m -> ti (set_bits (N.lor (m_bits (if restart then reset_stream m else m)) mask)
-                         (if restart then reset_stream m else m)).
+
+  Lemma renew_info_same m : same_but_choices m (renew_info m).
+  Proof. unfold renew_info, same_but_choices. destruct (has (m_bits m) st_Ready); repeat split; reflexivity. Qed.
+
+  Lemma ti_next m (mask : N) (restart : bool) : ti m -> ti (next_state restart mask m).
   Proof.
-    intros (Ha & Ht & Hh & Hs). destruct restart; unfold ti; cbn [m_tr m_tls m_hs m_bits set_bits set_negd set_adv reset_stream];
-      repeat split; auto; apply has_lor; exact Hs.
+    intros (Ha & Ht & Hh & Hs). unfold next_state.
+    assert (forall mm, m_tr mm = m_tr m -> m_tls mm = m_tls m -> m_hs mm = m_hs m -> m_bits mm = m_bits m ->
+                       ti (set_bits (N.lor (m_bits mm) mask) mm)) as Hgen.
+    { intros mm E1 E2 E3 E4. unfold ti. cbn [m_tr m_tls m_hs m_bits set_bits]. rewrite E1, E2, E3, E4.
+      repeat split; auto. apply has_lor. exact Hs. }
+    destruct restart.
+    - eapply ti_same; [apply renew_info_same|]. apply Hgen; reflexivity.
+    - apply Hgen; reflexivity.
+  Qed.
+
+  Lemma ti_tee m : ti m -> ti (tee_state m).
+  Proof. intro H. unfold tee_state. eapply ti_same; [apply renew_info_same|]. exact H. Qed.
+
+  Lemma has_ldiff_other st m : N.land m st_Ready = 0%N -> has st m = true -> has (N.ldiff st st_Ready) m = true.
+  Proof.
+    rewrite !has_true. intros H1 H2.
+    apply N.bits_inj; intro bi.
+    apply (f_equal (fun z => N.testbit z bi)) in H1. apply (f_equal (fun z => N.testbit z bi)) in H2.
+    cbn beta in *. rewrite ?N.land_spec, ?N.ldiff_spec, ?N.bits_0 in *.
+    destruct (N.testbit st bi), (N.testbit m bi), (N.testbit st_Ready bi); cbn in *; congruence.
+  Qed.
+
+  Lemma has_ldiff_self st : has (N.ldiff st st_Ready) st_Ready = false.
+  Proof.
+    unfold has. apply N.eqb_neq. intro H.
+    assert (N.land (N.ldiff st st_Ready) st_Ready = 0%N) as Hz.
+    { apply N.bits_inj; intro bi. rewrite N.land_spec, N.ldiff_spec, N.bits_0.
+      destruct (N.testbit st bi), (N.testbit st_Ready bi); reflexivity. }
+    rewrite Hz in H. symmetry in H. exact (tbl_ready_nz H).
+  Qed.
+
+  Lemma ldiff_none st : has st st_Ready = false -> N.land st st_Ready = 0%N -> N.ldiff st st_Ready = st.
+  Proof.
+    intros _ H. apply N.bits_inj; intro bi.
+    apply (f_equal (fun z => N.testbit z bi)) in H. cbn beta in H. rewrite ?N.land_spec, ?N.ldiff_spec, ?N.bits_0 in *.
+    destruct (N.testbit st bi), (N.testbit st_Ready bi); cbn in *; congruence.
+  Qed.
+
+  Lemma ti_fail m e : ti m -> final_ok (mkR (RErr e) (m_bits (fail_state m)) (fail_state m)).
+  Proof.
+    intros (Ha & Ht & Hh & Hs). exists P4. cbn [r_state r_bits r_class fail_state m_tr m_bits m_tls set_bits phase_ok].
+    split; [exact Ha|]. split; [reflexivity|]. split; [|discriminate]. split; [|split; [exact Ht|exact Hh]].
+    apply has_ldiff_other; [exact tbl_secure_ready|exact Hs].
+  Qed.
+
+  Lemma clearinv_renew p m : clearinv p m -> clearinv p (renew_info m).
+  Proof. apply clearinv_same, renew_info_same. Qed.
+
+  Lemma fail_clear p m : clearp p = true -> clearinv p m -> phase_ok p (fail_state m).
+  Proof.
+    intros Hp (Ha & Ht & Hb).
+    assert (m_bits (fail_state m) = b0 /\ m_tls (fail_state m) = false) as Hx.
+    { cbn [fail_state m_bits m_tls set_bits]. split; [|exact Ht]. rewrite Hb.
+      apply ldiff_none; [apply b0_ready; exact Hb0|].
+      exact (land_sub _ _ _ (b0_mask b0 Hb0) tbl_ready_sub). }
+    destruct p; try discriminate; exact Hx.
   Qed.
 
   (* c_hs_ok is a fact about the run once the handshake has happened *)
@@ -809,37 +895,55 @@ Section Config.
       destruct (tee && negb istee).
       { apply IH.
         - destruct Hl as [(Hcl & _ & Hns)|[(Hp & Hns)|Hti]].
-          + left. split; [exact Hcl|]. split; [reflexivity|exact Hns].
-          + right; left. split; [exact Hp|exact Hns].
-          + right; right. exact Hti.
-        - exact Hok. }
+          + left. split; [apply clearinv_renew; exact Hcl|]. split; [|exact Hns].
+            unfold tee_state, renew_info. destruct (has (m_bits (reset_stream m)) st_Ready); reflexivity.
+          + right; left. split; [|exact Hns]. destruct Hp as ((Ha & Ht & Hh) & Hs & Hr).
+            pose proof (renew_info_same (reset_stream m)) as (E1 & E2 & E3 & E4 & _).
+            unfold tee_state, p3head, p3inv. rewrite E1, E2, E3, E4. repeat split; auto.
+          + right; right. apply ti_tee. exact Hti.
+        - intro Hti. apply Hok.
+          pose proof (renew_info_same (reset_stream m)) as (E1 & E2 & E3 & E4 & _).
+          destruct Hti as (Ha & Ht & Hh & Hs). unfold tee_state in *. rewrite E1 in Ha. rewrite E2 in Ht. rewrite E3 in Hh. rewrite E4 in Hs.
+          unfold ti. auto. }
       destruct (negotiator_body c m (ns_of data)) as [m1 r] eqn:Eb.
       destruct Hl as [(Hcl & Hnegd & Hns)|[(Hp & Hns)|Hti]].
       + (* first call: clear text *)
         rewrite Hns in Eb. pose proof (negotiator_body_clear _ _ _ Hcl Hnegd Eb) as Hpost.
         destruct r as [[[mask restart] ns1]|e|].
         * destruct Hpost as (Hm & Hr & Hn1 & (Hp3 & Hb3)). subst mask restart ns1.
+          assert (m_bits (next_state true st_Secure m1) = N.lor b0 st_Secure /\
+                  m_tr (next_state true st_Secure m1) = m_tr m1 /\ m_tls (next_state true st_Secure m1) = m_tls m1 /\
+                  m_hs (next_state true st_Secure m1) = m_hs m1) as (N1 & N2 & N3 & N4).
+          { unfold next_state.
+            pose proof (renew_info_same (set_bits (N.lor (m_bits (reset_stream m1)) st_Secure) (reset_stream m1))) as (E1 & E2 & E3 & E4 & _).
+            rewrite E1, E2, E3, E4. cbn [m_bits m_tr m_tls m_hs set_bits reset_stream set_adv set_negd].
+            rewrite Hb3, lor_twice. auto. }
           apply IH.
-          -- right; left. split; [|reflexivity]. split; [exact Hp3|].
-             cbn [m_bits set_bits set_negd set_adv reset_stream]. rewrite Hb3, lor_twice.
-             split; [apply has_lor_r|apply b0s_ready; exact Hb0].
-          -- intros (Ha4 & _). destruct Hp3 as (Ha3 & _). cbn [m_tr set_bits set_negd set_adv reset_stream] in Ha4. congruence.
-        * destruct Hpost as (p & Hp12 & (Ha & Ht & Hb)). exists p. cbn.
-          repeat split; auto; try discriminate. destruct Hp12; subst p; cbn; auto.
+          -- right; left. split; [|reflexivity]. destruct Hp3 as (Ha3 & Ht3 & Hh3).
+             unfold p3head, p3inv. rewrite N1, N2, N3, N4. repeat split; auto.
+             ++ apply has_lor_r.
+             ++ apply b0s_ready; exact Hb0.
+          -- intros (Ha4 & _). destruct Hp3 as (Ha3 & _). rewrite N2 in Ha4. congruence.
+        * destruct Hpost as (p & Hp12 & Hci). exists p. cbn [r_state r_bits r_class].
+          destruct Hci as (Ha & Ht & Hb).
+          split; [exact Ha|]. split; [reflexivity|]. split; [|discriminate].
+          apply fail_clear; [destruct Hp12; subst p; reflexivity|unfold clearinv; auto].
         * destruct Hpost as (p & Hp12 & (Ha & Ht & Hb)). exists p. cbn.
           repeat split; auto; try discriminate. destruct Hp12; subst p; cbn; auto.
       + (* first call over TLS: handshake *)
         destruct (negotiator_body_p3 _ _ _ _ Hp Hns Eb) as [(Hhs & Hti1)|((e & He) & (Ha5 & Hr5))].
         * destruct r as [[[mask restart] ns1]|e|].
           -- apply IH; [right; right; apply ti_next; exact Hti1|intros _; exact Hhs].
+          -- apply ti_fail; exact Hti1.
           -- apply ti_stop; [exact Hti1|discriminate].
-          -- apply ti_stop; [exact Hti1|discriminate].
-        * subst r. exists P5. cbn. repeat split; auto; discriminate.
+        * subst r. exists P5. cbn [r_state r_bits r_class fail_state m_tr set_bits].
+          split; [exact Ha5|]. split; [reflexivity|]. split; [|discriminate].
+          cbn [phase_ok m_bits set_bits]. apply has_ldiff_self.
       + (* later calls *)
         pose proof (negotiator_body_ti _ _ _ _ Hti Eb) as Hti1.
         destruct r as [[[mask restart] ns1]|e|].
         * apply IH; [right; right; apply ti_next; exact Hti1|intros _; exact (Hok Hti)].
-        * apply ti_stop; [exact Hti1|discriminate].
+        * apply ti_fail; exact Hti1.
         * apply ti_stop; [exact Hti1|discriminate].
   Qed.
 
